@@ -165,3 +165,68 @@ pub fn checked_apply(replica: &mut Vector<Elem>, diff: &VectorDiff<Elem>) -> Res
     diff.clone().apply(replica);
     Ok(())
 }
+
+#[cfg(test)]
+mod tests {
+    use super::*;
+    use crate::vecworld::steps::{LimKind, LimSpec};
+
+    fn v(k: u8, u: u16) -> V {
+        V(k, u)
+    }
+    fn lim() -> LimSpec {
+        LimSpec { kind: LimKind::Scripted, initial: 0, share: None }
+    }
+
+    #[test]
+    fn head_tail_skip_views() {
+        let src = [v(0, 1), v(1, 2), v(2, 3)];
+        assert!(matches(&stage_view(&StageSpec::Head(2), &src, None), &[v(0, 1), v(1, 2)]).is_ok());
+        assert!(matches(&stage_view(&StageSpec::Head(9), &src, None), &src).is_ok());
+        assert!(matches(&stage_view(&StageSpec::Tail(2), &src, None), &[v(1, 2), v(2, 3)]).is_ok());
+        assert!(matches(&stage_view(&StageSpec::Tail(0), &src, None), &[]).is_ok());
+        assert!(matches(&stage_view(&StageSpec::Skip(1), &src, None), &[v(1, 2), v(2, 3)]).is_ok());
+        assert!(matches(&stage_view(&StageSpec::Skip(7), &src, None), &[]).is_ok());
+        // a wrong view is rejected
+        assert!(matches(&stage_view(&StageSpec::Tail(2), &src, None), &[v(0, 1), v(1, 2)]).is_err());
+    }
+
+    #[test]
+    fn dynamic_views_before_and_after_the_first_announcement() {
+        let src = [v(0, 1), v(1, 2), v(2, 3)];
+        assert!(matches(&stage_view(&StageSpec::DynHead(lim()), &src, None), &[]).is_ok());
+        assert!(matches(&stage_view(&StageSpec::DynSkip(lim()), &src, None), &[]).is_ok(), "no count yet: empty, not everything");
+        assert!(matches(&stage_view(&StageSpec::DynSkip(lim()), &src, Some(0)), &src).is_ok());
+        assert!(matches(&stage_view(&StageSpec::DynTailInit(1, lim()), &src, None), &[v(2, 3)]).is_ok());
+        assert!(matches(&stage_view(&StageSpec::DynTailInit(1, lim()), &src, Some(2)), &[v(1, 2), v(2, 3)]).is_ok());
+    }
+
+    #[test]
+    fn filter_and_sort_views() {
+        let src = [v(2, 1), v(0, 2), v(2, 3), v(1, 4)];
+        assert!(matches(&stage_view(&StageSpec::Filter(0b0101), &src, None), &[v(2, 1), v(0, 2), v(2, 3)]).is_ok());
+        assert!(matches(&stage_view(&StageSpec::FilterMap(0b0001), &src, None), &[v(4, 2)]).is_ok());
+        let sorted = stage_view(&StageSpec::SortBy, &src, None);
+        // ties in either order are fine, a missing or foreign item or a wrong order is not
+        assert!(matches(&sorted, &[v(0, 2), v(1, 4), v(2, 1), v(2, 3)]).is_ok());
+        assert!(matches(&sorted, &[v(0, 2), v(1, 4), v(2, 3), v(2, 1)]).is_ok());
+        assert!(matches(&sorted, &[v(1, 4), v(0, 2), v(2, 3), v(2, 1)]).is_err());
+        assert!(matches(&sorted, &[v(0, 2), v(1, 4), v(2, 3)]).is_err());
+        assert!(matches(&sorted, &[v(0, 2), v(1, 4), v(2, 3), v(2, 9)]).is_err());
+        let rev = stage_view(&StageSpec::SortByKey, &src, None);
+        assert!(matches(&rev, &[v(2, 3), v(2, 1), v(1, 4), v(0, 2)]).is_ok());
+    }
+
+    #[test]
+    fn applicability() {
+        let e = |k, u| crate::track::Elem::new(V(k, u));
+        assert!(applicable(&VectorDiff::PopFront, 0).is_err());
+        assert!(applicable(&VectorDiff::PopBack, 1).is_ok());
+        assert!(applicable(&VectorDiff::Insert { index: 2, value: e(0, 1) }, 1).is_err());
+        assert!(applicable(&VectorDiff::Insert { index: 1, value: e(0, 1) }, 1).is_ok());
+        assert!(applicable(&VectorDiff::Set { index: 1, value: e(0, 1) }, 1).is_err());
+        assert!(applicable(&VectorDiff::Remove { index: 0 }, 0).is_err());
+        assert!(applicable(&VectorDiff::<crate::track::Elem>::Clear, 0).is_ok());
+        assert!(applicable(&VectorDiff::<crate::track::Elem>::Truncate { length: 5 }, 1).is_ok());
+    }
+}
